@@ -464,6 +464,19 @@ fraction (what search and fetch use to pick fractions) therefore cover every doc
 theorem c07_x_distribution_marks_every_id :
     buildDistributionLoop = ["for _, id := range ids", "s.Distribution.Add(id.MID)"] := by decide
 
+/-- the `disk.IndexReader` of a sealed fraction is shared by all its concurrent data providers (the model lets any number
+of sealed readers run: `sReaders`); it carries no mutable scratch state - the buffer for the compressed block is
+taken from the pool per call and nothing is written to the reader -/
+theorem c07_x_index_reader_stateless :
+    indexReaderShape = ["field limiter", "field file", "field cache", "bytespool.AcquireLen", "bytespool.Release"] := by
+  decide
+
+/-- the entry `FracManager` keeps in its fraction list for a fraction being written IS the proxyFrac of the model
+(readers reach the Active only through `proxyFrac.DataProvider`, so `c07_dp_valid` applies to them; between `publish`
+and the swap of the entry by `FracManager.seal` the proxy already hands out the sealed fraction) -/
+theorem c07_x_list_entry_is_proxy :
+    activeRefInstance = ["f := &proxyFrac{active: active, fp: fp}", "frac=f", "instance=f"] := by decide
+
 /-- ownership at the enqueue boundary: `Active.Append` only QUEUES the metas for the index worker (`wNew` happens after
 `Bulk` returned), so the in-memory client, whose caller reuses its buffer, must hand over a private copy -/
 theorem c07_x_bulk_owns_metas : inMemoryBulkOrder = ["in.Metas=slices.Clone(in.Metas)", "store.Bulk"] := by decide
